@@ -8,7 +8,7 @@ import z3
 
 from ..arrays import NDArr, fresh_array, sym_array
 from ..objects import Instance
-from ..values import COS_FN, SIN_FN, Opaque, concrete, to_real, to_z3
+from ..values import COS_FN, COSH_FN, SIN_FN, SINH_FN, Opaque, concrete, to_real, to_z3
 from .common import explore_paths, make_backend_stub, prem_of
 
 PROPERTY = "C19"
@@ -16,7 +16,10 @@ COORDS = {
     "polar": ("pde.grids.coordinates.polar", "PolarCoordinates", 2, ["r", "φ"]),
     "spherical": ("pde.grids.coordinates.spherical", "SphericalCoordinates", 3, ["r", "θ", "φ"]),
     "cylindrical": ("pde.grids.coordinates.cylindrical", "CylindricalCoordinates", 3, ["r", "φ", "z"]),
+    "bipolar": ("pde.grids.coordinates.bipolar", "BipolarCoordinates", 2, ["σ", "τ"]),
+    "bispherical": ("pde.grids.coordinates.bispherical", "BisphericalCoordinates", 3, ["σ", "τ", "φ"]),
 }
+HYPERBOLIC = ("bipolar", "bispherical")
 # grid class -> (coordinate system, grid axes, symmetric axes) as the grid classes declare them
 GRIDS = {
     "PolarSymGrid": ("polar", ["r"], ["φ"]),
@@ -48,8 +51,18 @@ def basis_unit(kind):
     def unit(U):
         def body(it):
             c = Instance(it.module_attr(it.load_module(mod), cls), {"dim": dim})
-            vals = _point(dim)
-            it.ctx.assume(vals[0] > 0)
+            if kind in HYPERBOLIC:
+                a = z3.Real("scale_parameter")
+                it.ctx.assume(a > 0)
+                c.attrs["scale_parameter"] = a
+                vals = [z3.Real("sigma"), z3.Real("tau"), z3.Real("phi")][:dim]
+                # away from the foci: cosh(tau) - cos(sigma) > 0; sin(sigma) > 0 for the 3-d system (0 < sigma < pi)
+                it.ctx.assume(COSH_FN(vals[1]) - COS_FN(vals[0]) > 0)
+                if kind == "bispherical":
+                    it.ctx.assume(SIN_FN(vals[0]) > 0)
+            else:
+                vals = _point(dim)
+                it.ctx.assume(vals[0] > 0)
             if kind == "spherical":
                 it.ctx.assume(SIN_FN(vals[1]) > 0)
             pts = fresh_array("point", (dim,), lambda idx: vals[concrete(idx[0])])
@@ -65,20 +78,28 @@ def basis_unit(kind):
                 U.prove(f"{nm}.returns_normally", P, z3.BoolVal(False), info={"exc": str(res.exc)})
                 continue
             R, J, h, vals = res.value
-            ax = _trig_axioms(vals)
+            if kind in HYPERBOLIC:
+                ax = [SIN_FN(v) * SIN_FN(v) + COS_FN(v) * COS_FN(v) == 1 for v in (vals[0], *vals[2:])]
+                ax += [COSH_FN(vals[1]) * COSH_FN(vals[1]) - SINH_FN(vals[1]) * SINH_FN(vals[1]) == 1, COSH_FN(vals[1]) >= 1]
+            else:
+                ax = _trig_axioms(vals)
             Rm, Jm = _mat(R, dim), _mat(J, dim)
             hv = [to_z3(to_real(h.read((j,)))) for j in range(dim)]
             for i, j in itertools.product(range(dim), repeat=2):
                 dot = sum(Rm[i][k] * Rm[j][k] for k in range(dim))
-                U.prove(f"{nm}.rows_{i}_{j}_orthonormal", P + ax, dot == (1 if i == j else 0))
+                U.prove(f"{nm}.rows_{i}_{j}_orthonormal", P + ax, dot == (1 if i == j else 0), info={"prefer": "ratnf"} if kind in HYPERBOLIC else None)
             if dim == 2:
                 det = Rm[0][0] * Rm[1][1] - Rm[0][1] * Rm[1][0]
             else:
                 det = (Rm[0][0] * (Rm[1][1] * Rm[2][2] - Rm[1][2] * Rm[2][1]) - Rm[0][1] * (Rm[1][0] * Rm[2][2] - Rm[1][2] * Rm[2][0])
                        + Rm[0][2] * (Rm[1][0] * Rm[2][1] - Rm[1][1] * Rm[2][0]))
-            U.prove(f"{nm}.right_handed_det=+1", P + ax, det == 1)
+            U.prove(f"{nm}.right_handed_det=+1", P + ax, det == 1, info={"prefer": "ratnf"} if kind in HYPERBOLIC else None)
             for j in range(dim):
-                U.prove(f"{nm}.basis_vector_{j}==jacobian_column_{j}/scale_factor", P + ax, z3.And(*[Rm[j][i] * hv[j] == Jm[i][j] for i in range(dim)]))
+                if kind in HYPERBOLIC:
+                    for i in range(dim):
+                        U.prove(f"{nm}.basis_vector_{j}[{i}]==jacobian_column_{j}[{i}]/scale_factor", P + ax, Rm[j][i] * hv[j] == Jm[i][j], info={"prefer": "ratnf"})
+                else:
+                    U.prove(f"{nm}.basis_vector_{j}==jacobian_column_{j}/scale_factor", P + ax, z3.And(*[Rm[j][i] * hv[j] == Jm[i][j] for i in range(dim)]))
                 U.prove(f"{nm}.scale_factor_{j}_positive", P + ax, hv[j] > 0)
         U.assume_note("sin^2 + cos^2 = 1 (ground instances); r > 0, sin(theta) > 0 away from the coordinate singularities")
 
@@ -202,7 +223,23 @@ def inner_product_unit(rank_a, rank_b):
     return unit
 
 
-UNITS = [(f"numba.inner_product[rank_a={ra},rank_b={rb}]", inner_product_unit(ra, rb)) for ra in (1, 2) for rb in (1, 2)]
+def _operator_units():
+    """the compiled operators that read or write vector / tensor components on curvilinear grids pair every component
+    with the derivative the continuum formula prescribes for that basis vector (C01 kernel contracts, re-checked here:
+    a kernel that swaps t[r,z] and t[z,r] ties a component to the wrong dyad)"""
+    from . import C01
+
+    us = []
+    for (kind, op), optlist in C01.OPTIONS.items():
+        if kind == "cartesian" or C01.RANKS[op] == (0, 0):
+            continue
+        opts = next((o for o in optlist if not o.get("safe") and o.get("method", "central") == "central" and o.get("conservative", True)), optlist[0])
+        us.append((f"operator_component_order.{kind}.{op}[{C01._optstr(opts)}]", C01.kernel_unit(kind, None, op, opts)))
+    return us
+
+
+UNITS = _operator_units()
+UNITS += [(f"numba.inner_product[rank_a={ra},rank_b={rb}]", inner_product_unit(ra, rb)) for ra in (1, 2) for rb in (1, 2)]
 UNITS += [(f"basis.{k}", basis_unit(k)) for k in COORDS] + [(f"vector_to_cartesian.{g}", vector_to_cartesian_unit(g)) for g in GRIDS] + [("numba.outer_product", outer_product_unit)]
 
 
